@@ -285,3 +285,122 @@ Theorem cr_sort_class_sorted l : StronglySorted class_le (cr_sort l).
 Proof.
   unfold cr_sort. induction l as [|a l IH]; cbn [fold_right]; [constructor|]. apply cr_insert_class_sorted. exact IH.
 Qed.
+
+(* ---- every entry point of SortedRecords, in any sequence, keeps the
+   collection in canonical owner order and keeps every (owner, type) *)
+Lemma sorted_records_names_le l : StronglySorted names_le (sorted_records l).
+Proof.
+  unfold sorted_records, sr_dedup. pose proof (sr_sort_sorted l) as Hs. destruct (sr_sort l) as [|x r]; [constructor|].
+  apply StronglySorted_inv in Hs as [Hs Hx]. constructor; [apply sr_dedup_from_sorted; exact Hs|].
+  apply Forall_forall. intros z Hz. rewrite Forall_forall in Hx. apply Hx. eapply sr_dedup_from_sub. exact Hz.
+Qed.
+
+Lemma sr_apply_sorted v op : StronglySorted names_le v -> StronglySorted names_le (sr_apply v op).
+Proof.
+  intros Hv. destruct op as [l|l|x]; cbn [sr_apply]; try apply sorted_records_names_le.
+  unfold sr_add. destruct (sr_has_eq x v); [exact Hv|apply sr_insert_sorted; exact Hv].
+Qed.
+
+Lemma sr_run_names_le ops : forall v, StronglySorted names_le v -> StronglySorted names_le (fold_left sr_apply ops v).
+Proof. induction ops as [|op ops IH]; intros v Hv; cbn [fold_left]; [exact Hv|]. apply IH. apply sr_apply_sorted. exact Hv. Qed.
+
+Theorem sr_run_sorted ops : zone_sorted (strip (sr_run ops)).
+Proof. apply names_le_zone_sorted. apply sr_run_names_le. constructor. Qed.
+
+Lemma has_type_app a b o x : has_type (a ++ b) o x <-> has_type a o x \/ has_type b o x.
+Proof.
+  unfold has_type. split.
+  - intros (m & Hin & E). apply in_app_or in Hin as [H|H]; [left|right]; exists m; split; assumption.
+  - intros [(m & H & E)|(m & H & E)]; exists m; (split; [apply in_or_app|exact E]); [left|right]; exact H.
+Qed.
+
+Lemma strip_app a b : strip (a ++ b) = strip a ++ strip b.
+Proof. apply map_app. Qed.
+
+Lemma sr_cmp_eq_type y x : sr_cmp y x = Eq -> name_eqb (sr_name y) (sr_name x) = true /\ sr_type y = sr_type x.
+Proof.
+  unfold sr_cmp. destruct (name_cmp (sr_name y) (sr_name x)) eqn:E1; try discriminate.
+  destruct (N.compare_spec (sr_type y) (sr_type x)); try discriminate. intros _. split; [apply name_eqb_cmp; exact E1|assumption].
+Qed.
+
+Lemma sr_add_types v x o t : has_type (strip (sr_add v x)) o t <-> has_type (strip (v ++ [x])) o t.
+Proof.
+  unfold sr_add. rewrite strip_app, has_type_app. destruct (sr_has_eq x v) eqn:E.
+  - split; [intros H; left; exact H|]. intros [H|H]; [exact H|].
+    unfold sr_has_eq in E. apply existsb_exists in E as (y & Hy & Ey).
+    destruct (sr_cmp y x) eqn:C; try discriminate. destruct (sr_cmp_eq_type _ _ C) as [En Et].
+    destruct H as (m & [Hm|[]] & Em). destruct x as [[nx tx] dx], y as [[ny ty] dy]. cbn [fst snd sr_name sr_type strip map] in *.
+    injection Hm as <- <-. exists ny. split; [|eapply name_eqb_trans; eassumption].
+    apply in_map_iff. exists (ny, ty, dy). split; [cbn [fst]; congruence|exact Hy].
+  - unfold has_type, strip. split.
+    + intros (m & Hin & Em). apply in_map_iff in Hin as (r & Er & Hr).
+      apply (Permutation_in _ (sr_insert_perm x v)) in Hr.
+      destruct Hr as [Hr|Hr].
+      * subst r. right. exists m. split; [|exact Em]. apply in_map_iff. exists x. split; [exact Er|left; reflexivity].
+      * left. exists m. split; [|exact Em]. apply in_map_iff. exists r. split; assumption.
+    + intros [(m & Hin & Em)|(m & Hin & Em)]; exists m; (split; [|exact Em]); apply in_map_iff in Hin as (r & Er & Hr);
+        apply in_map_iff; exists r; (split; [exact Er|]); apply (Permutation_in _ (Permutation_sym (sr_insert_perm x v))).
+      * right. exact Hr.
+      * destruct Hr as [Hr|[]]. left. exact Hr.
+Qed.
+
+Theorem sr_run_types ops o t : has_type (strip (sr_run ops)) o t <-> has_type (strip (sr_input ops)) o t.
+Proof.
+  unfold sr_run, sr_input.
+  assert (G : forall v acc, (forall o t, has_type (strip v) o t <-> has_type (strip acc) o t) ->
+            (has_type (strip (fold_left sr_apply ops v)) o t <-> has_type (strip (fold_left sr_input_step ops acc)) o t)).
+  { induction ops as [|op ops IH]; intros v acc Hva; cbn [fold_left]; [apply Hva|]. apply IH. intros o' t'.
+    destruct op as [l|l|x]; cbn [sr_apply sr_input_step].
+    - apply sorted_records_types.
+    - rewrite sorted_records_types, !strip_app, !has_type_app, Hva. reflexivity.
+    - rewrite sr_add_types, !strip_app, !has_type_app, Hva. reflexivity. }
+  apply G. intros; reflexivity.
+Qed.
+
+Example sr_run_example :
+  strip (sr_run [OpExtend [([[110]], 1, (true, [1])); ([[119]], 1, (true, [1]))];
+                 OpExtend [([[97]], 1, (true, [1]))]; OpInsert ([[109]], 15, (true, [1]));
+                 OpInsert ([[97]], 1, (true, [1]))]) =
+  [([[97]], 1); ([[109]], 15); ([[110]], 1); ([[119]], 1)].
+Proof. vm_compute. reflexivity. Qed.
+
+(* ---- any sorting algorithm: whatever slice::sort_by does, if its result is a
+   permutation of the input and ordered by canonical_cmp, the collection is in
+   canonical owner order and complete (stability is not needed for that) *)
+Definition cmp_sorted (v : list srec) : Prop := StronglySorted (fun a b => sr_cmp a b <> Gt) v.
+
+Lemma cmp_sorted_names_le v : cmp_sorted v -> StronglySorted names_le v.
+Proof. apply sorted_weaken. intros a b. apply sr_cmp_name. Qed.
+
+Theorem any_sort_spec l v : Permutation v l -> cmp_sorted v ->
+  zone_sorted (strip (sr_dedup v)) /\
+  (unknown_eq_checks_rtype = true -> forall o x, has_type (strip (sr_dedup v)) o x <-> has_type (strip l) o x).
+Proof.
+  intros Hp Hs. apply cmp_sorted_names_le in Hs. split.
+  - apply names_le_zone_sorted. unfold sr_dedup. destruct v as [|x r]; [constructor|].
+    apply StronglySorted_inv in Hs as [Hs Hx]. constructor; [apply sr_dedup_from_sorted; exact Hs|].
+    apply Forall_forall. intros z Hz. rewrite Forall_forall in Hx. apply Hx. eapply sr_dedup_from_sub. exact Hz.
+  - intros U o x. rewrite (sr_dedup_keeps_types U). unfold has_type, strip.
+    split; intros (m & Hin & Em); exists m; (split; [|exact Em]);
+      apply in_map_iff in Hin as (r & Er & Hr); apply in_map_iff; exists r; (split; [exact Er|]).
+    + apply (Permutation_in _ Hp). exact Hr.
+    + apply (Permutation_in _ (Permutation_sym Hp)). exact Hr.
+Qed.
+
+Theorem any_sort_nsec_end_to_end l v apex dk out : Permutation v l -> cmp_sorted v ->
+  generate_nsecs apex dk (strip (sr_dedup v)) = Ok out ->
+  (forall n, auth_name apex (strip l) n <-> exists r, In r out /\ name_eqb (n_owner r) n = true) /\
+  StronglySorted (fun a b => name_cmp (n_owner a) (n_owner b) = Lt) out.
+Proof.
+  intros Hp Hs Ho. destruct (any_sort_spec l v Hp Hs) as [Z T]. split.
+  - intros n. rewrite <- (auth_name_ext apex _ _ (T eq_refl) n). apply (nsec_owners apex _ Z dk out Ho).
+  - apply (nsec_sorted apex _ Z dk out Ho).
+Qed.
+
+Example any_sort_example :
+  let l := [([[98]], 1, (true, [1])); ([[97]], 16, (true, [2])); ([[97]], 1, (true, [3]))] in
+  Permutation (sr_sort l) l /\ cmp_sorted (sr_sort l).
+Proof.
+  cbn zeta. split; [apply sr_sort_perm|]. vm_compute sr_sort. unfold cmp_sorted.
+  repeat (constructor; [|repeat (constructor; [vm_compute; discriminate|]); constructor]). constructor.
+Qed.
